@@ -283,20 +283,21 @@ Definition lines_post_hook (linux : bool) (key value : bytes) (st : vmci * genv)
         end
     end.
 
+Definition starts_with_dot (k : bytes) : bool :=
+  match k with c :: _ => c =? DOT | [] => false end.
+
 (** add_parsed_row *)
 Definition add_parsed_row (linux : bool) (key value : bytes) (st : vmci * genv)
   : outcome * (vmci * genv) :=
   let '(v, g) := st in
-  match key with
-  | 46 :: _ => (St ERR_CORRUPT, st)                      (* fix 51: leading dot *)
-  | _ =>
-      match insert (split_on DOT key) VStr value 0 (lines v) with
-      | None => (St ERR_SYSTEM, st)
-      | Some (l', hook) =>
-          let st' := (set_lines l' v, g) in
-          if hook then lines_post_hook linux key value st' else (St KDUMP_OK, st')
-      end
-  end.
+  if starts_with_dot key then (St ERR_CORRUPT, st)       (* fix 51: leading dot *)
+  else
+    match insert (split_on DOT key) VStr value 0 (lines v) with
+    | None => (St ERR_SYSTEM, st)
+    | Some (l', hook) =>
+        let st' := (set_lines l' v, g) in
+        if hook then lines_post_hook linux key value st' else (St KDUMP_OK, st')
+    end.
 
 (** the line loop of vmcoreinfo_raw_post_hook: lines are separated by '\n', a
     text that ends in '\n' has no further (empty) line *)
@@ -343,7 +344,7 @@ Definition clear_raw (st : vmci * genv) : vmci * genv :=
 
 (** lookup_dir_attr strips one leading dot of the key ("do not fall back") *)
 Definition strip_dot (k : bytes) : bytes :=
-  match k with 46 :: t => t | _ => k end.
+  match k with c :: t => if c =? DOT then t else k | [] => k end.
 
 (** kdump_vmcoreinfo_raw *)
 Definition get_raw (v : vmci) : status * bytes :=
